@@ -264,6 +264,10 @@ def run(ctx):
     # the numbers the renderer prints with Display); a tolerant PartialEq makes 0.1+0.2 == 0.3 while the texts differ (seed c16-f)
     import eqhash as _eq
     _eq.rule_derived_eq(ctx)
+    # naming-law lints over the modules this property lives in (sibling slips: truth<->budget, stamp<->punctuation, left<->right, swapped arguments)
+    import roles as _roles
+    _roles.rule_R_ROLE(ctx, modules=('conversion::string::typst_formatter', 'enum_narsese::'))
+    _roles.rule_A_NAMES(ctx, modules=('conversion::string::typst_formatter', 'enum_narsese::'))
     ctx.undecided = ["injectivity of rendering over all pairs of values (only per-role/per-category distinctness and the layout rule are decided)",
                      "rendering equality up to the order of unordered components (depends on set iteration order)"]
     ctx.assumptions = ["ToDebug on the atom name yields a quoted, escaped string", "terms are finite trees (the formatter recurses on components)"]
